@@ -16,6 +16,7 @@ long verif_syscall(long nr, long a, long b);
 #include "stubs/fd_model.h"
 
 struct verif_in_t {
+	_Bool	other_downgrade;
 	int	efd_in_use;
 	int	efd2_errno, efd_errno, pipe_errno;
 	int	numobjs;
@@ -34,7 +35,14 @@ long verif_syscall(long nr, long a, long b)
 	if (nr == __NR_eventfd2) {
 		g_efd2++;
 		__CPROVER_assert(a == 0 && b == (EFD_CLOEXEC | EFD_NONBLOCK), "[C09,C18] eventfd2 is asked for a close-on-exec, non-blocking descriptor");
-		if (verif_in.efd2_errno) { verif_errno = verif_in.efd2_errno; return -1; }
+		if (verif_in.efd2_errno) {
+			/* the flavour flag is a process-wide variable without a lock: another thread that met the
+			 * same failure may already have lowered it */
+			if (verif_in.other_downgrade && eventfd_in_use == 2 && (verif_in.efd2_errno == EINVAL || verif_in.efd2_errno == ENOSYS))
+				eventfd_in_use = 1;
+			verif_errno = verif_in.efd2_errno;
+			return -1;
+		}
 		return k_alloc(KFD_EVENTFD, 1, 1);
 	}
 	if (nr == __NR_eventfd) {
@@ -139,6 +147,8 @@ void h_eventfd_grab(void)
 	__CPROVER_assert(IMPLIES(old == 2 && verif_in.efd2_errno != 0 && verif_in.efd2_errno != EINVAL && verif_in.efd2_errno != ENOSYS, eventfd_in_use == old), "[C09,C15] a real error leaves the detected flavour alone: objects registered earlier keep the write format of their descriptor, so their posts are not lost");
 	__CPROVER_assert(IMPLIES(old == 2 && (verif_in.efd2_errno == EINVAL || verif_in.efd2_errno == ENOSYS), g_efd == 1 && eventfd_in_use <= 1), "[C15] missing eventfd2 falls back to eventfd and is remembered");
 	__CPROVER_assert(IMPLIES(r == -ENOSYS, eventfd_in_use == 0), "[C15] -ENOSYS means: use a pipe from now on");
+	__CPROVER_assert(IMPLIES(old == 2 && (verif_in.efd2_errno == EINVAL || verif_in.efd2_errno == ENOSYS) && verif_in.efd_errno == 0, eventfd_in_use == 1 && r >= 0),
+			 "[C09,C15] falling back from eventfd2 to eventfd sets the flavour to exactly 'eventfd', also when another thread made the same step at the same time: descriptors handed out stay eventfds and are written to as such");
 	__CPROVER_assert(IMPLIES(old == 0, r == -ENOSYS && g_efd2 == 0 && g_efd == 0), "[C15] known-absent eventfd is not retried");
 	__CPROVER_assert(IMPLIES(r >= 0, k_fd[r].open && k_fd[r].kind == KFD_EVENTFD && k_open_count() == 1), "[C18] one descriptor on success");
 	__CPROVER_assert(IMPLIES(r < 0, k_open_count() == 0), "[C18] none on failure");
@@ -159,8 +169,8 @@ void h_raw_register(void)
 		__CPROVER_assert(g_fd_reg == 1 && v_state.numobjs == verif_in.numobjs + 1, "[C07,C09] the read side is registered with the loop: one loop object");
 		__CPROVER_assert(v_er.event_rfd.handler_in == iv_event_raw_got_event && v_er.event_rfd.cookie == &v_er, "[C09] readiness of the descriptor drains it and calls the user handler");
 		__CPROVER_assert(rf >= 3 && wf >= 3 && k_fd[rf].open && k_fd[wf].open, "[C09] both ends are open");
-		__CPROVER_assert(k_fd[rf].nonblock && k_fd[wf].nonblock, "[C09] both ends are non-blocking whichever transport was chosen: posting never blocks the poster, draining never blocks the loop");
-		__CPROVER_assert(k_fd[rf].cloexec && k_fd[wf].cloexec, "[C18] both ends are close-on-exec");
+		__CPROVER_assert(k_fd[rf].nonblock && k_fd[wf].nonblock, "[C09,C15,C08] both ends are non-blocking whichever transport was chosen: posting never blocks the poster, draining never blocks the loop");
+		__CPROVER_assert(k_fd[rf].cloexec && k_fd[wf].cloexec, "[C18,C15] both ends are close-on-exec");
 		__CPROVER_assert(IFF(eventfd_in_use, rf == wf) && k_open_count() == (eventfd_in_use ? 1 : 2), "[C09,C15] one eventfd, or the two ends of a pipe when eventfd is unavailable");
 		__CPROVER_assert(IMPLIES(eventfd_in_use, k_fd[rf].kind == KFD_EVENTFD) && IMPLIES(!eventfd_in_use, k_fd[rf].kind == KFD_PIPE_R && k_fd[wf].kind == KFD_PIPE_W), "[C09] read from the read end, post to the write end");
 	} else {
